@@ -483,3 +483,108 @@ def gen_case(rng, n_ops=6, **kw):
     _, heap0 = resolve_table(table)
     ops = gen_history(rng, table, len(heap0), n_ops, **kw)
     return {"table": table, "ops": ops, "nd": len(heap0)}
+
+
+# ---------------------------------------------------------------------------
+# Aimed element cases: small containers with KNOWN contents, every element helper, targets
+# that are present and absent, replacement values that conform and that do not, nested
+# keywords with the failing one first or last; copy-on-write and in place.  (Random histories
+# rarely address an element that exists.)
+def element_cases(rng, n, inplace_values=(False, True)):
+    from inst_common import resolve_table
+    out = []
+    guard = 0
+    while len(out) < n and guard < 20 * n:
+        guard += 1
+        table = gen_table(rng, None)
+        if table[1].get("frozen"):
+            continue
+        _, heap0 = resolve_table(table)
+        h = Hist(rng, table, len(heap0))
+        fam = rng.choice(["list", "set", "dict", "list_k1", "dict_k1"])
+        inplace = rng.choice(list(inplace_values))
+        hargs = {"inplace": inplace, "if_": True}
+        if fam in ("list", "set", "dict"):
+            vals = rng.sample([0, 1, 2, 3], rng.choice([1, 2, 3]))
+            aid = {"list": 50, "set": 52, "dict": 51}[fam]
+            if fam == "dict":
+                coll = h.alloc(("dict", [(S(7 + i), V(v)) for i, v in enumerate(vals)]))
+                present, absent = S(7), S(0)
+            else:
+                coll = h.alloc((fam, [V(v) for v in vals]))
+                present, absent = V(vals[0]), V(9)
+            x = h.add(("construct", 2, None, [(aid, coll), (1, V(1))]), ("inst", 2))
+            kind = rng.choice(["with_item", "update_item", "transform_item", "without_item"])
+            target = present if rng.random() < 0.75 else absent
+            new = rng.choice([V(5), V(vals[-1]), S(7), NONE, ("bool", True)])
+            if fam == "list":
+                idx = V(rng.choice([0, -1, len(vals) - 1, len(vals), -len(vals) - 1]))
+                by_value = rng.random() < 0.4
+                first = target if by_value else idx
+                if kind == "with_item":
+                    hargs["pos"] = [new]
+                    if rng.random() < 0.6:
+                        hargs["index"] = idx
+                        hargs["insert"] = rng.random() < 0.5
+                elif kind == "update_item":
+                    hargs["pos"] = [first, new]
+                    hargs["by_index"] = (not by_value) if rng.random() < 0.7 else None
+                elif kind == "transform_item":
+                    hargs["pos"] = [first]
+                    hargs["by_index"] = (not by_value) if rng.random() < 0.7 else None
+                    hargs["fn"] = rng.choice([("addint", 1), ("const", S(7)), ("raise",), ("id",)])
+                else:
+                    hargs["pos"] = [first]
+                    hargs["by_index"] = (not by_value) if rng.random() < 0.7 else None
+            elif fam == "set":
+                if kind == "with_item":
+                    hargs["pos"] = [new]
+                elif kind == "update_item":
+                    hargs["pos"] = [target, new]
+                elif kind == "transform_item":
+                    hargs["pos"] = [target]
+                    hargs["fn"] = rng.choice([("addint", 1), ("const", S(7)), ("raise",), ("id",)])
+                else:
+                    hargs["pos"] = [target]
+            else:
+                if kind == "with_item":
+                    hargs["pos"] = [target if rng.random() < 0.8 else V(1), new]
+                elif kind == "update_item":
+                    hargs["pos"] = [target, new]
+                elif kind == "transform_item":
+                    hargs["pos"] = [target]
+                    hargs["fn"] = rng.choice([("addint", 1), ("const", S(7)), ("raise",), ("id",)])
+                else:
+                    hargs["pos"] = [target]
+        else:
+            items = [h.new_k1() for _ in range(rng.choice([1, 2]))]
+            aid = 53 if fam == "list_k1" else 54
+            if fam == "list_k1":
+                coll = h.alloc(("list", items))
+                target = V(rng.choice([0, -1, len(items) - 1, 5]))
+            else:
+                coll = h.alloc(("dict", [(S(7 + i), it) for i, it in enumerate(items)]))
+                target = S(rng.choice([7, 7, 8, 0]))
+            x = h.add(("construct", 2, None, [(aid, coll), (1, V(1))]), ("inst", 2))
+            kind = rng.choice(["update_item", "update_item", "transform_item", "with_item"])
+            bad = rng.random() < 0.7
+            if kind == "transform_item":
+                hargs["pos"] = [target]
+                hargs["kwfn"] = h.k1_kwfn(bad, 0.3)
+                if len(hargs["kwfn"]) == 1 and rng.random() < 0.7:      # two transforms, the second failing
+                    hargs["kwfn"] = [(1, ("addint", 1)), (3, rng.choice([("const", S(7)), ("raise",)]))]
+                hargs["fn"] = ("id",)
+            else:
+                hargs["pos"] = [target]
+                kw = h.k1_kw(False)
+                if len(kw) < 2:
+                    kw = [(1, V(2)), (3, V(4))]
+                if bad:
+                    i = rng.choice([0, len(kw) - 1, len(kw) - 1])
+                    a = kw[i][0]
+                    kw[i] = (a, h.int_val(True) if a == 1 else V(1) if a == 2 else S(7))
+                hargs["kw"] = kw
+        fail_at = rng.choice([1, 2]) if rng.random() < 0.1 else None
+        h.add(("helper", x, (kind, aid), hargs), ("inst", 2), fail_at)
+        out.append({"table": table, "ops": h.ops, "nd": len(heap0)})
+    return out
